@@ -14,7 +14,9 @@ PROP = Property(
                   "extraction (ExtrOcamlBasic only, no Extract Constant) + OCaml 4.13.1",
                   "gen/regen.py constants (ARES__ARRAY_MIN, status codes) compiled against the working tree",
                   "harness/dsa_drv.c, ocaml/dsa_drv.ml, gen/opsgen.py (correspondence check)",
+                  "harness/dsa_slist.c (incl. the link-time replacement of ares_rand_bytes by a deterministic stream), ocaml/dsa_slist.ml, gen/opsgen_slist.py",
                   "clang 14 ASan/UBSan"],
-    assumptions=["containers are hand-modelled (coq/Dsa/*.v); the tie to the C code is the correspondence run"],
+    assumptions=["containers are hand-modelled (coq/Dsa/*.v); the tie to the C code is the correspondence run",
+                 "skip list: the comparison callback's sign is a total preorder (antisymmetric sign, transitive <=); coin flips are not modelled, theorems quantify over every level choice"],
     rule="random/boundary-directed operation sequences per container; non-trivial = at least two state-changing operations succeeded in the model; distinct by case text",
 )
